@@ -1,5 +1,6 @@
 import DoltVerif.Lemmas.Query
 import DoltVerif.Lemmas.QueryMerge
+import DoltVerif.Lemmas.QueryKey
 /-!
 C26 — Dolt returns the same query results as the reference engine (partial by design).
 
@@ -93,16 +94,6 @@ theorem rangescan_needs_pruning :
 
 -- ================================================================ iterRange as a whole
 
-/-- **not proved** (kept as the full statement): the same for `IterRange` including its key-range
-path (`KeyRangeLookup` + `IncrementTuple`: exact prefix followed by unconstrained *nullable* key
-columns — full-key lookups on a primary or unique index).  Modelled (`keyRangeN`, `incrementTuple`,
-`keyPartition`), exercised by `decide` examples and by the `sqlquery` harness; proved below for the
-ranges where that path is not taken. -/
-def rangescan_eq_filter_full : Prop :=
-  ∀ (maxInt : Int) (nullable : List Bool) (w : Nat) (idx : List Tuple) (r : List ColExpr),
-    IndexOK w idx → r.length ≤ w → nullable.length = w → (∀ t ∈ idx, ∀ c ∈ t, ∀ x, c = some x → x ≤ maxInt) →
-    rangeScan maxInt nullable idx r = idx.filter (fun t => rangeNonEmpty r && memberAll r t)
-
 /-- `rangescan_eq_filter` for `rangeScan` whenever `KeyRangeLookup` declines — in particular for every
 secondary index (its key ends in the NOT NULL primary-key columns) unless the range binds all of
 them, and for every range with a non-equality column. -/
@@ -116,6 +107,25 @@ theorem rangescan_eq_filter_partial (maxInt : Int) (nullable : List Bool) (w : N
   · simp only [hne, Bool.false_eq_true, if_false]
     have : rangeNonEmpty r = false := by simpa using hne
     simp [this]
+
+/-- **`rangescan_eq_filter_full`** — the whole of `rangeScan` (pruning + `IterRange` with *both* paths):
+for every sorted index, every SQL range and every integer width, the scan returns exactly the index
+entries between the cuts, in index order.  The key-range path (`KeyRangeLookup` + `IncrementTuple` +
+`IterKeyRange [Tup, stop)`, taken by exact-prefix lookups whose remaining key columns are nullable,
+e.g. full-key lookups on a primary key) is exact as well; on overflow of the last field the code
+falls back to the tree path, which is covered by `rangescan_eq_filter`. -/
+theorem rangescan_eq_filter_full (maxInt : Int) (nullable : List Bool) (w : Nat) (idx : List Tuple) (h : IndexOK w idx)
+    (r : List ColExpr) (hn : r.length ≤ w) :
+    rangeScan maxInt nullable idx r = idx.filter (fun t => rangeNonEmpty r && memberAll r t) := by
+  cases hk : keyRangeStop maxInt nullable (toProlly r) with
+  | none => exact rangescan_eq_filter_partial maxInt nullable w idx h r hn hk
+  | some stop =>
+    unfold rangeScan
+    by_cases hne : rangeNonEmpty r = true
+    · simp only [hne, if_true, Bool.true_and, iterRange, hk]
+      exact keyscan_eq_filter maxInt nullable w idx h.width h.sorted r hne hn stop hk
+    · have : rangeNonEmpty r = false := by simpa using hne
+      simp [this]
 
 /-- the key-range path on a primary-key point lookup, incl. the overflow fallback at `maxInt` -/
 example : iterRange 100 [false] [[some 1], [some 2], [some 3]] (toProlly [⟨.below 2, .above 2⟩]) = [[some 2]] ∧
